@@ -31,7 +31,10 @@ REQUIRED = ["built", "construction_failed", "invalid_reported", "ignorable_skipp
 VALID = ["permit ip any any", "deny tcp host 10.0.0.1 any eq 80", "10 permit udp any any",
          "remark some text",
          # valid lines that merely CONTAIN an ignorable keyword / an action word
-         "remark ignore this rule until description is updated", "20 remark statistics per-entry"]
+         "remark ignore this rule until description is updated", "20 remark statistics per-entry",
+         # valid lines longer than 100 characters
+         "permit tcp 10.123.123.0 0.0.0.255 range 1024 65535 10.234.234.0 0.0.0.255 range 10000 20000 ack syn log-input",
+         "remark " + "long text " * 11]
 IGNORABLE = ["statistics per-entry", "description some acl", "ignore this"]
 INVALID = ["permit ip any", "deny tcp any any eq", "permit foo any any", "interface Ethernet1/1"]
 OVERLIMIT = ["permit ip 10.0.0.0 0.255.255.254 any"]
